@@ -1523,6 +1523,18 @@ def gen_e2e(st, tier, flavour):
             sp["filterable"] = True
             if rk.random() < 0.8:
                 sp["filters"] = rk.sample(E2E_FILTER_WORDS, rk.randint(1, 3))
+                if flavour == "C10" and rk.random() < 0.6:
+                    sp["filter_budget"] = rk.choice([1, 1, 2, 3])      # add_filter(..., max_match=n): budgets that DO run out
+                    if len(sp["filters"]) >= 2:
+                        # lines matching two filters: which budget such a line is charged to decides what is kept
+                        extra = []
+                        for k in range(rk.randint(3, 6)):
+                            ws = rk.sample(sp["filters"], rk.choice([1, 2, 2]))
+                            segs = [["mk", "~m%d~" % (900 + k)]]
+                            for w in ws:
+                                segs += [["d", " "], ["f", w]]
+                            extra.append(segs)
+                        sp["lines"] = list(sp["lines"]) + extra
         case["specs"].append(sp)
     if flavour == "C10" and rk.random() < 0.4:
         case["repeat"] = True          # the same collection once more in the same process (fresh cleaner, fresh archive)
@@ -1618,7 +1630,9 @@ def run_e2e(case, flavour):
             with Seams(env):
                 Ctx, rps, impls = build_specs(env_case, env)
                 for sp in case["specs"]:
-                    if sp["filters"]:
+                    if sp["filters"] and sp.get("filter_budget"):
+                        filters.add_filter(rps[sp["name"]], list(sp["filters"]), max_match=sp["filter_budget"])
+                    elif sp["filters"]:
                         filters.add_filter(rps[sp["name"]], list(sp["filters"]))
                 cfg = w3.Cfg(**dict(case["cfg"]))
                 from insights.cleaner import Cleaner
@@ -1708,6 +1722,8 @@ def run_e2e(case, flavour):
                         if os.path.isfile(dp):
                             stored.append(open(dp, encoding="utf-8").read().split("\n"))
                     log.append((name, [len(x) for x in stored], sorted(type(e).__name__ for e in broker.exceptions.get(rps[name], []))))
+                    if flavour == "C10":
+                        log.append(stored)          # what was stored is the output whose hash-seed independence C10 claims
                     raw = texts[name]
                     # ---- C07: a filterable spec without filters is not collected on a host at all
                     if sp["filterable"] and not sp["filters"]:
@@ -1716,7 +1732,7 @@ def run_e2e(case, flavour):
                             viols.append(V("C07.e2e", "collected-without-filters:%s" % sp["factory"],
                                            "filterable spec %s (%s) has no filter but was collected into the archive" % (name, sp["factory"])))
                         continue
-                    if sp["filters"]:
+                    if sp["filters"] and not sp.get("filter_budget"):
                         # ---- C07: no matching line is dropped (budgets are the default 10000, never used up here)
                         want = [l for l in raw if any(f in l for f in sp["filters"]) and
                                 (sp["no_redact"] or not any((kd == "plain" and p in l) or (kd == "regex" and __import__("re").search(p, l))
